@@ -244,6 +244,14 @@ def swept_cases(chk, a, cases, descr):
         cases.append("chk_swept 0x1p-30 [%s] [%s] %s" % ("; ".join(cv3(p_) for p_ in ll), "; ".join(cv3(p_) for p_ in ua0), exp))
         descr.append(dict(what="swept-section-vectors", segment=seg.name))
         chk.count("swept-vectors=" + seg.side)
+        # ... and the triads at the control points, from the node arrays listed with ascending span fractions
+        order = np.argsort(nodes)
+        xs = [float(nodes[k_]) for k_ in order]
+        cases.append("chk_cp_triads 0x1p-30 %s [%s] [%s] %s [%s]" % (
+            flist(xs), "; ".join(cv3(seg._u_a_dist[k_]) for k_ in order), "; ".join(cv3(seg._u_s_dist[k_]) for k_ in order),
+            flist([float(x_) for x_ in seg.cp_span_locs]),
+            "; ".join("(%s, %s, %s)" % (cv3(seg.u_a_cp[i]), cv3(seg.u_n_cp[i]), cv3(seg.u_s_cp[i])) for i in range(seg.N))))
+        descr.append(dict(what="control-point-triads", segment=seg.name))
 
 
 def sort_cases(chk, a, cases, descr):
@@ -523,7 +531,7 @@ def run(chk):
         "nodes / control_points from quarter-chord point, ll_offset, chord and section angles",
         "independent oracle for the quarter-chord curve: scipy.quad integration of the documented curve (dx/ds=-b tan(sweep), dihedral rotating the "
         "span direction, connection point with mirrored y offset) written separately from the implementation",
-        "correspondence: Model/Kuchemann.v on binary64 vs the stored table of Kuchemann offsets (bit-exact; cos, tan, float power as oracles); dihedral and sweep derived from quarter-chord points (bit-exact; arctan2, arctan, scalar square as oracles)", "correspondence: Model/Swept.v on binary64 vs the swept unit vectors stored at the nodes (_u_a_dist, _u_n_dist, _u_s_dist; 2^-30), Model/SegSort.v vs the order of the left-hand segments", "not modelled: interpolation of the unit vectors to the control points, callables; scipy.integrate.quad is an oracle"])
+        "correspondence: Model/Kuchemann.v on binary64 vs the stored table of Kuchemann offsets (bit-exact; cos, tan, float power as oracles); dihedral and sweep derived from quarter-chord points (bit-exact; arctan2, arctan, scalar square as oracles)", "correspondence: Model/Swept.v on binary64 vs the swept unit vectors stored at the nodes (_u_a_dist, _u_n_dist, _u_s_dist) and at the control points (u_a_cp, u_n_cp, u_s_cp; 2^-30), Model/SegSort.v vs the order of the left-hand segments", "not modelled: callables; scipy.integrate.quad is an oracle"])
     rng = chk.rng
     cases, descr = [], []
     n = chk.q(40, 400)
